@@ -82,13 +82,14 @@ kw    = ${ ("ab" | "a" | "abc" | "b" | "ba") ~ "c"? }
 kws   = { (kw ~ ",")* ~ kw }
 op    = { "===" | "==" | "=>" | "=" | "<=" | "<" }
 cmp   = { id ~ op ~ (num | id) }
+rg    = { 'a'..'c' ~ 'x'..'z' ~ ('0'..'4')? }
 '''
 P_BUILTIN_CALLS = [
     ("r", "x1"), ("r", "xa\n"), ("r", "xa"), ("word", "abc"), ("word", "1"), ("word", ""), ("num", "12.5"), ("num", "12."), ("num", "x"),
     ("hex", "0xfg"), ("hex", "0xg"), ("line", "ab 12 0x1f\n"), ("line", "ab 12 zz\n"), ("line", "ab"), ("nd", "ab1"), ("nd", "1"),
     ("up", "Ab"), ("up", "ab"), ("up", "ÉÀ"), ("anyline", "abc\n"), ("anyline", "abc"), ("alnum", "a1_"), ("alnum", "_"),
     ("bin", "0179"), ("bin", "2"), ("id", "_a1-"), ("id", "1a"), ("doc", "a = 1 b=0x1f c = d"), ("doc", "a = 1 b=0x"), ("doc", "a = \n ?"),
-    ("greek", "αβγ12"), ("greek", "abc"), ("kw", "abc"), ("kw", "ab"), ("kw", "bac"), ("kw", "c"), ("kws", "ab, a ,abc,bac"), ("kws", "abcc"), ("op", "==="), ("op", "<="), ("op", "=>"), ("cmp", "a === b"), ("cmp", "a <= 1"), ("cmp", "a == = b"),
+    ("greek", "αβγ12"), ("greek", "abc"), ("kw", "abc"), ("kw", "ab"), ("kw", "bac"), ("kw", "c"), ("kws", "ab, a ,abc,bac"), ("kws", "abcc"), ("op", "==="), ("op", "<="), ("op", "=>"), ("cmp", "a === b"), ("cmp", "a <= 1"), ("cmp", "a == = b"), ("rg", "ax"), ("rg", "a1"), ("rg", "1"), ("rg", "cz4"), ("rg", "cz5x"),
 ]
 
 # twin of P-builtin: same rule names, same literal/range SETS in every choice, other order
@@ -102,8 +103,9 @@ kws   = { (kw ~ ",")* ~ kw }
 id    = @{ ("_" | ASCII_ALPHA) ~ ("_" | ASCII_ALPHANUMERIC)* }
 op    = { "=" | "==" | "===" | "<" | "<=" | "=>" }
 cmp   = { id ~ op ~ (num | id) }
+rg    = { #lo='a'..'c' ~ #hi='x'..'z' ~ (#dg='0'..'4')? }
 '''
-P_BUILTIN2_CALLS = [("kw", "abc"), ("kw", "ab"), ("kw", "bac"), ("kw", "c"), ("kws", "ab, a ,abc,bac"), ("kws", "abcc"), ("op", "==="), ("op", "<="), ("op", "=>"), ("cmp", "a === b"), ("cmp", "a <= 1"), ("cmp", "a == = b"), ("id", "_a1-"), ("word", "abc"), ("num", "12."), ("hex", "0xfg")]
+P_BUILTIN2_CALLS = [("kw", "abc"), ("kw", "ab"), ("kw", "bac"), ("kw", "c"), ("kws", "ab, a ,abc,bac"), ("kws", "abcc"), ("op", "==="), ("op", "<="), ("op", "=>"), ("cmp", "a === b"), ("cmp", "a <= 1"), ("cmp", "a == = b"), ("id", "_a1-"), ("word", "abc"), ("num", "12."), ("hex", "0xfg"), ("rg", "ax"), ("rg", "a1"), ("rg", "1"), ("rg", "cz4"), ("rg", "cz5x")]
 
 P_TWIN1 = r'''
 WHITESPACE = _{ " " }
@@ -272,6 +274,13 @@ def random_optimizer_cfg(rng: random.Random):
         return [rng.choice(PASS_NAMES)]
     k = rng.randint(1, 6)
     return [rng.choice(PASS_NAMES) for _ in range(k)]
+
+
+def random_fixed_point(rng: random.Random, passes):
+    """Names of the passes a custom Optimizer runs to a fixed point (usually none)."""
+    if not passes or rng.random() > 0.25:
+        return []
+    return sorted({rng.choice(passes) for _ in range(rng.randint(1, 2))})
 
 
 def mutate_input(rng: random.Random, text: str) -> str:
